@@ -44,8 +44,10 @@ def _case(draw):
             "engine": draw(st.sampled_from(["bomd", "bomd", "langevin"])), "steps": draw(st.integers(2, 5)),
             "padxyz": draw(st.sampled_from(["zeros", "far"]))}
     if draw(st.integers(0, 2)) == 0:
-        case["user_v"] = draw(st.sampled_from(["random", "translation", "rotation", "zero", "padding_nonzero"]))
+        case["user_v"] = draw(st.sampled_from(["random", "translation", "rotation", "zero", "padding_nonzero", "internal", "internal"]))
         case["vseed"] = draw(st.integers(0, 1000))
+    if draw(st.integers(0, 3)) == 0:
+        case["reuse_driver"] = True
     return case
 
 
@@ -78,12 +80,24 @@ def _user_velocities(case, rows, S, X, mass):
         elif kind == "rotation":
             c = (mass[b, :n, None] * x).sum(0) / mass[b, :n].sum()
             V[b, :n] = np.cross(np.array([0.0, 0.0, 0.02]), x - c)
+        elif kind == "internal":
+            v = rng.normal(size=(n, 3)) * 0.01
+            m = mass[b, :n]
+            v -= (m[:, None] * v).sum(0) / m.sum()
+            c = (m[:, None] * x).sum(0) / m.sum()
+            r = x - c
+            L = (m[:, None] * np.cross(r, v)).sum(0)
+            I = (m * (r * r).sum(1)).sum() * np.eye(3) - (m[:, None, None] * r[:, :, None] * r[:, None, :]).sum(0)
+            v -= np.cross(np.broadcast_to(np.linalg.pinv(I) @ L, r.shape), r)
+            V[b, :n] = v
         if kind == "padding_nonzero":
             V[b, n:] = 0.05
     return V
 
 
 def _run(case, rows, S, X, workdir, tag, seed=None, prior=None, user_v=None):
+    """one MD run. With case['reuse_driver'] the SAME driver object first performs a decoy run (other temperature, other
+    remove_com mode, another molecule object of the same shape); the judged run follows on that used driver."""
     import seqm.MolecularDynamics as MDmod
 
     stubforce.install()
@@ -100,10 +114,18 @@ def _run(case, rows, S, X, workdir, tag, seed=None, prior=None, user_v=None):
             md = MDmod.Molecular_Dynamics_Langevin(damp=40.0, seqm_parameters=s, Temp=case["T"], timestep=0.5, output=out)
         else:
             md = MDmod.Molecular_Dynamics_Basic(seqm_parameters=s, Temp=case["T"], timestep=0.5, output=out)
+        rc = tuple(case["remove_com"]) if case["remove_com"] else None
+        if case.get("reuse_driver"):
+            decoy = Molecule(Constants(), s, torch.tensor(X[::-1].copy()), torch.tensor(S[::-1].copy()))
+            drc = ("angular", 2) if (rc is None or rc[0] == "linear") else None
+            if any(len(r[0]) == 2 for r in rows):
+                drc = ("linear", 2) if rc is None else None      # stay clear of the recorded diatomic/angular finding
+            md.output_config.prefix = prefix + "_decoy"
+            md.run(decoy, steps=2, remove_com=drc, seed=4242)
+            md.output_config.prefix = prefix
         torch.manual_seed(12345)
         for _ in range(case["prior"] if prior is None else prior):
             torch.randn(case["prior_size"])
-        rc = tuple(case["remove_com"]) if case["remove_com"] else None
         md.run(mol, steps=case["steps"], remove_com=rc, seed=case["seed"] if seed is None else seed)
     h5 = {}
     for m in range(len(rows)):
@@ -127,7 +149,7 @@ class InitialConditions(SubCheck):
         rows, S, X = _build(case)
         B, width = S.shape
         labels = ["engine:" + case["engine"], "T:%g" % case["T"], "remove_com:%s" % (case["remove_com"][0] if case["remove_com"] else None),
-                  "user_v:%s" % case.get("user_v"), "padded:%s" % any(len(r[0]) < width for r in rows), "mols:" + "+".join(sorted(set(case["mols"])))]
+                  "user_v:%s" % case.get("user_v"), "reuse_driver:%s" % bool(case.get("reuse_driver")), "padded:%s" % any(len(r[0]) < width for r in rows), "mols:" + "+".join(sorted(set(case["mols"])))]
         const = Constants()
         mass = tonp(const.mass)[S]
         user_v = _user_velocities(case, rows, S, X, mass) if case.get("user_v") else None
@@ -171,6 +193,11 @@ class InitialConditions(SubCheck):
                                             f"(padding coordinates moved by {np.abs(xpad - X[b, n:]).max():.3e} A)", labels, nontrivial)
                 if user_v is not None:
                     # "velocities supplied by the user are the velocities the first step starts from"
+                    if case["user_v"] == "internal":
+                        dv = float(np.abs(v0 - user_v[b, :n]).max())
+                        if dv > 1e-12:
+                            return Outcome.fail("user_internal_velocities_modified", f"row {b}: supplied velocities without net linear/angular momentum are changed by {dv:.3e} A/fs", labels, True)
+                        continue
                     if case["user_v"] != "zero" and not np.array_equal(v0, user_v[b, :n]):
                         dv = float(np.abs(v0 - user_v[b, :n]).max())
                         P = (m[:, None] * user_v[b, :n]).sum(0)
@@ -197,7 +224,7 @@ class InitialConditions(SubCheck):
                 P = (m[:, None] * v0).sum(0)
                 pscale = float((m[:, None] * np.abs(v0)).sum())
                 info["P_rel"] = max(info.get("P_rel", 0.0), float(np.abs(P).max()) / pscale)
-                if np.abs(P).max() > 1e-12 * pscale:
+                if np.abs(P).max() > 1e-10 * pscale:  # round-off: up to 1.3e-12 for diatomics (singular inertia tensor in the rotation removal)
                     return Outcome.fail("net_linear_momentum_at_start", f"row {b}: |sum m v| / sum m|v| = {np.abs(P).max() / pscale:.3e}", labels, nontrivial)
                 if case["remove_com"] and case["remove_com"][0] == "angular" and n > 1:
                     c = (m[:, None] * x0).sum(0) / m.sum()
@@ -207,18 +234,41 @@ class InitialConditions(SubCheck):
                     lscale = float((m * np.linalg.norm(x0 - c, axis=1) * np.linalg.norm(v0, axis=1)).sum())
                     if lscale > 0 and np.abs(L).max() > 1e-9 * lscale:
                         return Outcome.fail("net_angular_momentum_at_start", f"row {b}: |L| / scale = {np.abs(L).max() / lscale:.3e}", labels, nontrivial)
-            if user_v is not None:
+            if case["remove_com"] and (user_v is None or case.get("user_v") == "internal"):
+                stride = int(case["remove_com"][1])
+                for b, (Z, x) in enumerate(rows):
+                    n = len(Z)
+                    if n == 2 and case["remove_com"][0] == "angular":
+                        continue
+                    m = mass[b, :n]
+                    V, Xs = h5[b]["velocities/values"], h5[b]["coordinates/values"]
+                    for j in range(1, V.shape[0]):
+                        if (j - 1) % stride:
+                            continue            # removal is applied inside loop index i = j-1 when i % stride == 0
+                        P = (m[:, None] * V[j]).sum(0)
+                        ps = float((m[:, None] * np.abs(V[j])).sum())
+                        if ps > 0 and np.abs(P).max() > 1e-10 * ps:
+                            return Outcome.fail("periodic_com_removal_leaves_linear_momentum", f"row {b}, step {j} (right after a {case['remove_com'][0]} removal, {case['engine']}): |sum m v| / sum m|v| = {np.abs(P).max() / ps:.3e}", labels, True)
+                        if case["remove_com"][0] == "angular" and n > 2:
+                            c = (m[:, None] * Xs[j]).sum(0) / m.sum()
+                            L = (m[:, None] * np.cross(Xs[j] - c, V[j])).sum(0)
+                            ls = float((m * np.linalg.norm(Xs[j] - c, axis=1) * np.linalg.norm(V[j], axis=1)).sum())
+                            if ls > 0 and np.abs(L).max() > 1e-8 * ls:
+                                return Outcome.fail("periodic_com_removal_leaves_angular_momentum", f"row {b}, step {j}: |L| / scale = {np.abs(L).max() / ls:.3e}", labels, True)
+            stochastic = case["engine"] == "langevin"
+            if user_v is not None and not (stochastic and case["user_v"] == "internal"):
                 return Outcome.ok(nontrivial, labels, **info)
             # seeding: same seed => bitwise identical regardless of prior RNG consumption; another seed => different
-            mol2, _, h5b = _run(case, rows, S, X, wd, "b", prior=(case["prior"] + 7) % 60)
+            mol2, _, h5b = _run(case, rows, S, X, wd, "b", prior=(case["prior"] + 7) % 60, user_v=user_v)
             for b in range(B):
                 for key in h5[b]:
                     if not np.array_equal(h5[b][key], h5b[b][key], equal_nan=True):
                         return Outcome.fail("seed_not_reproducible_across_rng_history", f"row {b} {key}: same seed, different prior RNG consumption -> different output", labels, nontrivial)
             if case["T"] > 0:
-                _, _, h5c = _run(case, rows, S, X, wd, "c", seed=case["seed"] + 1)
-                if all(np.array_equal(h5[b]["velocities/values"][0], h5c[b]["velocities/values"][0]) for b in range(B)):
-                    return Outcome.fail("seed_has_no_effect", "a different seed gives identical initial velocities", labels, nontrivial)
+                _, _, h5c = _run(case, rows, S, X, wd, "c", seed=case["seed"] + 1, user_v=user_v)
+                row = 0 if user_v is None else -1      # with supplied velocities the seed shows in the thermostat noise of later rows
+                if all(np.array_equal(h5[b]["velocities/values"][row], h5c[b]["velocities/values"][row]) for b in range(B)):
+                    return Outcome.fail("seed_has_no_effect", "a different seed gives an identical trajectory" if user_v is not None else "a different seed gives identical initial velocities", labels, nontrivial)
             return Outcome.ok(nontrivial, labels, **info)
         finally:
             shutil.rmtree(wd, ignore_errors=True)
